@@ -162,7 +162,7 @@ def generate(rng, prop, tier):
     tname = B.odd_name(rng, label, 'a')
     case = {
         'engine': 'archsim', 'prop': prop,
-        'backend': B.config(label, tname if tname != 'a' else 'a0'),
+        'backend': B.with_link(rng, label, B.config(label, tname if tname != 'a' else 'a0')),
         'cached': cached,
         'siblings': [B.config(label, 'a%d' % (i + 1)) for i in range(nsib)],
         'order': rng.choice(['sorted', 'permute', 'reverse']),
